@@ -23,6 +23,7 @@ use concordium_base::{
         com_mult::{ComMult, ComMultSecret},
         common::{prove, verify, AndAdapter, ReplicateAdapter, SigmaProof, SigmaProtocol},
         dlog::{Dlog, DlogSecret},
+        enc_trans::{ElgDec, EncTrans, EncTransSecret},
         vcom_eq::VecComEq,
     },
 };
@@ -82,6 +83,9 @@ struct Fam<P: SigmaProtocol> {
     mkw: Box<dyn Fn(&[S]) -> P::SecretData>,
     offs: Vec<usize>, // byte offsets of the scalars inside the serialized response
     expect_panic: bool,
+    /// truncated-response attack: a statement with one more vector item (junk the prover knows nothing
+    /// about); the crafted prover hashes the FULL statement but commits/responds for the small one.
+    attack: Option<(Vec<S>, Box<dyn Fn(&[S]) -> P>)>,
 }
 
 fn run_kind<P: SigmaProtocol, T: Tk, U: Tk>(f: &Fam<P>, r: &mut Rng, seed: u64) {
@@ -160,6 +164,22 @@ fn run_kind<P: SigmaProtocol, T: Tk, U: Tk>(f: &Fam<P>, r: &mut Rng, seed: u64) 
             Err(_) => pert.push(json!([format!("resp{}", j), true, false])) }
     }
     o.insert("pert".into(), json!(pert));
+    if let Some((pubs_full, mk_full)) = &f.attack {
+        let res = guarded(|| {
+            let full = mk_full(pubs_full);
+            let (cm, st) = stmt.compute_commit_message(&mut csprng)?;
+            let mut ro: T = mk_ro(&ctx);
+            full.public(&mut ro);
+            ro.append_message("point", &cm);
+            let ch = ro.extract_raw_challenge();
+            let c = stmt.get_challenge(&ch);
+            let resp = stmt.compute_response((f.mkw)(&f.wit), st, &c)?;
+            let crafted = SigmaProof { challenge: ch, response: resp };
+            let mut ro2: T = mk_ro(&ctx);
+            Some(verify(&mut ro2, &full, &crafted))
+        });
+        o.insert("trunc_attack".into(), match res { Ok(Some(acc)) => json!({"accepted": acc}), Ok(None) => json!({"accepted": false, "note": "prover None"}), Err(e) => json!({"accepted": "PANIC", "why": e}) });
+    }
     println!("{}", base);
 }
 
@@ -198,22 +218,24 @@ fn fam_dlog(g: &mut Gen) -> Fam<Dlog<C>> {
     let coeff = g.gen(); let w = g.w();
     Fam { name: "dlog".into(), n: 1, variant: g.var.name().into(), pubs: vec![mul(&w, &coeff), coeff], wit: vec![w],
         mk: Box::new(|p| Dlog { public: pt(&p[0]), coeff: pt(&p[1]) }),
-        mkw: Box::new(|w| DlogSecret { secret: val(&w[0]) }), offs: vec![0], expect_panic: false }
+        mkw: Box::new(|w| DlogSecret { secret: val(&w[0]) }), offs: vec![0], expect_panic: false, attack: None }
 }
 fn fam_aggdlog(g: &mut Gen, n: usize) -> Fam<AggregateDlog<C>> {
     let coeff: Vec<S> = (0..n).map(|_| g.gen()).collect(); let ws: Vec<S> = (0..n).map(|_| g.w()).collect();
     let mut public = su(0); for i in 0..n { public = add(&public, &mul(&ws[i], &coeff[i])); }
     let mut pubs = vec![public]; pubs.extend(coeff);
+    let pubs_a = pubs.clone(); let junk = g.rnd();
     Fam { name: "aggregate_dlog".into(), n, variant: g.var.name().into(), pubs, wit: ws,
         mk: Box::new(|p| AggregateDlog { public: pt(&p[0]), coeff: p[1..].iter().map(pt).collect() }),
-        mkw: Box::new(|w| w.iter().map(|x| Rc::new(*x)).collect()), offs: (0..n).map(|i| 4 + 32 * i).collect(), expect_panic: false }
+        mkw: Box::new(|w| w.iter().map(|x| Rc::new(*x)).collect()), offs: (0..n).map(|i| 4 + 32 * i).collect(), expect_panic: false,
+        attack: Some(({ let mut f = pubs_a.clone(); f.push(junk); f }, Box::new(|p| AggregateDlog { public: pt(&p[0]), coeff: p[1..].iter().map(pt).collect() }))) }
 }
 fn fam_comeq(g: &mut Gen) -> Fam<ComEq<C, C>> {
     let (gk, hk, gg) = (g.gen(), g.gen(), g.gen()); let (a, rr) = (g.w(), g.w());
     let commitment = add(&mul(&a, &gk), &mul(&rr, &hk)); let y = mul(&a, &gg);
     Fam { name: "com_eq".into(), n: 1, variant: g.var.name().into(), pubs: vec![commitment, y, gk, hk, gg], wit: vec![rr, a],
         mk: Box::new(|p| ComEq { commitment: cmm(&p[0]), y: pt(&p[1]), cmm_key: CommitmentKey { g: pt(&p[2]), h: pt(&p[3]) }, g: pt(&p[4]) }),
-        mkw: Box::new(|w| ComEqSecret { r: prand(&w[0]), a: val(&w[1]) }), offs: vec![0, 32], expect_panic: false }
+        mkw: Box::new(|w| ComEqSecret { r: prand(&w[0]), a: val(&w[1]) }), offs: vec![0, 32], expect_panic: false, attack: None }
 }
 fn fam_comenceq(g: &mut Gen) -> Fam<ComEncEq<C>> {
     let (pg, pk, ckg, ckh, hin) = (g.gen(), g.gen(), g.gen(), g.gen(), g.gen()); let (x, er, pr) = (g.w(), g.w(), g.w());
@@ -222,7 +244,7 @@ fn fam_comenceq(g: &mut Gen) -> Fam<ComEncEq<C>> {
         mk: Box::new(|p| ComEncEq { cipher: Cipher(pt(&p[0]), pt(&p[1])), commitment: cmm(&p[2]), pub_key: ElgPk { generator: pt(&p[3]), key: pt(&p[4]) },
             cmm_key: CommitmentKey { g: pt(&p[5]), h: pt(&p[6]) }, encryption_in_exponent_generator: pt(&p[7]) }),
         mkw: Box::new(|w| ComEncEqSecret { value: val(&w[0]), elgamal_rand: ElgRand::new(w[1]), pedersen_rand: prand(&w[2]) }),
-        offs: vec![0, 32, 64], expect_panic: false }
+        offs: vec![0, 32, 64], expect_panic: false, attack: None }
 }
 fn fam_commult(g: &mut Gen) -> Fam<ComMult<C>> {
     let (gg, hh) = (g.gen(), g.gen()); let (x1, x2, r1, r2, r3) = (g.w(), g.w(), g.w(), g.w(), g.w());
@@ -231,7 +253,11 @@ fn fam_commult(g: &mut Gen) -> Fam<ComMult<C>> {
     Fam { name: "com_mult".into(), n: 1, variant: g.var.name().into(), pubs, wit: vec![x1, x2, r1, r2, r3],
         mk: Box::new(|p| ComMult { cmms: [cmm(&p[0]), cmm(&p[1]), cmm(&p[2])], cmm_key: CommitmentKey { g: pt(&p[3]), h: pt(&p[4]) } }),
         mkw: Box::new(|w| ComMultSecret { values: [val(&w[0]), val(&w[1])], rands: [prand(&w[2]), prand(&w[3]), prand(&w[4])] }),
-        offs: vec![0, 32, 64, 96, 128], expect_panic: false }
+        offs: vec![0, 32, 64, 96, 128], expect_panic: false, attack: None }
+}
+fn mk_comlin(n: usize) -> Box<dyn Fn(&[S]) -> ComLin<C>> {
+    Box::new(move |p| ComLin { us: p[..n].to_vec(), cmms: p[n..2 * n].iter().map(cmm).collect(), cmm: cmm(&p[2 * n]),
+        cmm_key: CommitmentKey { g: pt(&p[2 * n + 1]), h: pt(&p[2 * n + 2]) } })
 }
 fn fam_comlin(g: &mut Gen, n: usize) -> Fam<ComLin<C>> {
     let (gg, hh) = (g.gen(), g.gen());
@@ -241,12 +267,13 @@ fn fam_comlin(g: &mut Gen, n: usize) -> Fam<ComLin<C>> {
     let mut lin = su(0); for i in 0..n { lin = add(&lin, &mul(&us[i], &xs[i])); }
     let mut pubs = us.clone(); for i in 0..n { pubs.push(c(&xs[i], &rs[i])); } pubs.push(c(&lin, &rr)); pubs.push(gg); pubs.push(hh);
     let mut wit = xs.clone(); wit.extend(rs); wit.push(rr);
+    // full statement for the truncated-response attack: one more coefficient and one more commitment nobody can open
+    let full: Vec<S> = { let mut f = pubs[..n].to_vec(); f.push(g.rnd()); f.extend_from_slice(&pubs[n..2 * n]); f.push(g.rnd()); f.extend_from_slice(&pubs[2 * n..]); f };
     let mut offs: Vec<usize> = (0..n).map(|i| 4 + 32 * i).collect(); offs.extend((0..n).map(|i| 8 + 32 * n + 32 * i)); offs.push(8 + 64 * n);
     Fam { name: "com_lin".into(), n, variant: g.var.name().into(), pubs, wit,
-        mk: Box::new(move |p| ComLin { us: p[..n].to_vec(), cmms: p[n..2 * n].iter().map(cmm).collect(), cmm: cmm(&p[2 * n]),
-            cmm_key: CommitmentKey { g: pt(&p[2 * n + 1]), h: pt(&p[2 * n + 2]) } }),
+        mk: mk_comlin(n),
         mkw: Box::new(move |w| ComLinSecret::verif_new(w[..n].iter().map(val).collect(), w[n..2 * n].iter().map(prand).collect(), prand(&w[2 * n]))),
-        offs, expect_panic: false }
+        offs, expect_panic: false, attack: Some((full, mk_comlin(n + 1))) }
 }
 fn fam_comeqdiff(g: &mut Gen) -> Fam<ComEqDiffGroups<C, C>> {
     let (g1, h1, g2, h2) = (g.gen(), g.gen(), g.gen(), g.gen()); let (x, r1, r2) = (g.w(), g.w(), g.w());
@@ -254,7 +281,12 @@ fn fam_comeqdiff(g: &mut Gen) -> Fam<ComEqDiffGroups<C, C>> {
     Fam { name: "com_eq_different_groups".into(), n: 1, variant: g.var.name().into(), pubs: vec![c1, c2, g1, h1, g2, h2], wit: vec![x, r1, r2],
         mk: Box::new(|p| ComEqDiffGroups { commitment_1: cmm(&p[0]), commitment_2: cmm(&p[1]), cmm_key_1: CommitmentKey { g: pt(&p[2]), h: pt(&p[3]) }, cmm_key_2: CommitmentKey { g: pt(&p[4]), h: pt(&p[5]) } }),
         mkw: Box::new(|w| ComEqDiffGroupsSecret { value: val(&w[0]), rand_cmm_1: prand(&w[1]), rand_cmm_2: prand(&w[2]) }),
-        offs: vec![0, 32, 64], expect_panic: false }
+        offs: vec![0, 32, 64], expect_panic: false, attack: None }
+}
+fn mk_vcomeq(n: usize, idx: Vec<usize>) -> Box<dyn Fn(&[S]) -> VecComEq<C>> {
+    let m = idx.len();
+    Box::new(move |p| VecComEq { comm: cmm(&p[0]), comms: idx.iter().enumerate().map(|(j, &i)| (i as u8, cmm(&p[1 + j]))).collect::<BTreeMap<_, _>>(),
+        gis: p[1 + m..1 + m + n].iter().map(pt).collect(), h: pt(&p[1 + m + n]), g_bar: pt(&p[2 + m + n]), h_bar: pt(&p[3 + m + n]) })
 }
 /// vcom_eq with n generators; indices with i % 2 == 0 carry an individual commitment.
 fn fam_vcomeq(g: &mut Gen, n: usize) -> Fam<VecComEq<C>> {
@@ -267,13 +299,14 @@ fn fam_vcomeq(g: &mut Gen, n: usize) -> Fam<VecComEq<C>> {
     pubs.extend(gis.clone()); pubs.push(h); pubs.push(gbar); pubs.push(hbar);
     let mut wit = xs.clone(); wit.push(r); wit.extend(ris.clone());
     let m = idx.len(); let idx2 = idx.clone(); let idx3 = idx.clone();
+    // full statement for the truncated-response attack: one more generator (index n, no individual commitment)
+    let full: Vec<S> = { let mut f = pubs[..1 + m + n].to_vec(); f.push(g.rnd()); f.extend_from_slice(&pubs[1 + m + n..]); f };
     let mut offs: Vec<usize> = (0..n).map(|i| 2 + 32 * i).collect(); offs.push(2 + 32 * n);
     offs.extend((0..m).map(|j| 2 + 32 * n + 32 + 2 + 33 * j + 1));
     Fam { name: "vcom_eq".into(), n, variant: g.var.name().into(), pubs, wit,
-        mk: Box::new(move |p| VecComEq { comm: cmm(&p[0]), comms: idx2.iter().enumerate().map(|(j, &i)| (i as u8, cmm(&p[1 + j]))).collect::<BTreeMap<_, _>>(),
-            gis: p[1 + m..1 + m + n].iter().map(pt).collect(), h: pt(&p[1 + m + n]), g_bar: pt(&p[2 + m + n]), h_bar: pt(&p[3 + m + n]) }),
+        mk: mk_vcomeq(n, idx2.clone()),
         mkw: Box::new(move |w| (w[..n].to_vec(), val(&w[n]), idx3.iter().enumerate().map(|(j, &i)| (i as u8, val(&w[n + 1 + j]))).collect::<BTreeMap<_, _>>())),
-        offs, expect_panic: n == 0 && false }
+        offs, expect_panic: false, attack: Some((full, mk_vcomeq(n + 1, idx.clone()))) }
 }
 fn fam_and(g: &mut Gen) -> Fam<AndAdapter<Dlog<C>, ComEq<C, C>>> {
     let a = fam_dlog(g); let b = fam_comeq(g);
@@ -281,15 +314,56 @@ fn fam_and(g: &mut Gen) -> Fam<AndAdapter<Dlog<C>, ComEq<C, C>>> {
     let (amk, bmk, amw, bmw) = (a.mk, b.mk, a.mkw, b.mkw);
     Fam { name: "and(dlog,com_eq)".into(), n: 2, variant: g.var.name().into(), pubs, wit,
         mk: Box::new(move |p| AndAdapter { first: amk(&p[..2]), second: bmk(&p[2..]) }),
-        mkw: Box::new(move |w| (amw(&w[..1]), bmw(&w[1..]))), offs: vec![0, 32, 64], expect_panic: false }
+        mkw: Box::new(move |w| (amw(&w[..1]), bmw(&w[1..]))), offs: vec![0, 32, 64], expect_panic: false, attack: None }
 }
 fn fam_rep(g: &mut Gen, n: usize) -> Fam<ReplicateAdapter<Dlog<C>>> {
     let mut pubs = vec![]; let mut wit = vec![];
     for _ in 0..n { let d = fam_dlog(g); pubs.extend(d.pubs); wit.extend(d.wit); }
+    let full: Vec<S> = { let mut f = pubs.clone(); f.push(g.rnd()); f.push(g.rnd()); f };
     Fam { name: "replicate(dlog)".into(), n, variant: g.var.name().into(), pubs, wit,
         mk: Box::new(|p| ReplicateAdapter { protocols: p.chunks(2).map(|q| Dlog { public: pt(&q[0]), coeff: pt(&q[1]) }).collect() }),
         mkw: Box::new(|w| w.iter().map(|x| DlogSecret { secret: val(x) }).collect()),
-        offs: (0..n).map(|i| 4 + 32 * i).collect(), expect_panic: n == 0 }
+        offs: (0..n).map(|i| 4 + 32 * i).collect(), expect_panic: n == 0,
+        attack: if n == 0 { None } else { Some((full, Box::new(|p| ReplicateAdapter { protocols: p.chunks(2).map(|q| Dlog { public: pt(&q[0]), coeff: pt(&q[1]) }).collect() }))) } }
+}
+
+fn mk_comeq_item(p: &[S]) -> ComEq<C, C> {
+    ComEq { commitment: cmm(&p[0]), y: pt(&p[1]), cmm_key: CommitmentKey { g: pt(&p[2]), h: pt(&p[3]) }, g: pt(&p[4]) }
+}
+fn mk_enc(n1: usize, n2: usize) -> Box<dyn Fn(&[S]) -> EncTrans<C>> {
+    Box::new(move |p| EncTrans {
+        dlog: Dlog { public: pt(&p[0]), coeff: pt(&p[1]) },
+        elg_dec: ElgDec { public: pt(&p[2]), coeff: [pt(&p[3]), pt(&p[4])] },
+        encexp1: (0..n1).map(|i| mk_comeq_item(&p[5 + 5 * i..10 + 5 * i])).collect(),
+        encexp2: (0..n2).map(|i| mk_comeq_item(&p[5 + 5 * n1 + 5 * i..10 + 5 * n1 + 5 * i])).collect() })
+}
+/// enc_trans with n1 = n2 = n ComEq chunks; layout [dlog.public, dlog.coeff, elg.public, elg.c0, elg.c1, items1.., items2..],
+/// item = [commitment, y, cmm_g, cmm_h, g]; witness [sk, (r, a) per item].
+fn fam_enctrans(g: &mut Gen, n: usize) -> Fam<EncTrans<C>> {
+    let (dc, c0, c1) = (g.gen(), g.gen(), g.gen()); let sk = g.w();
+    let two32 = su(1u64 << 32);
+    let mut items: Vec<S> = vec![]; let mut wit = vec![sk];
+    let mut lin = su(0);
+    for _half in 0..2 {
+        let mut pw = su(1);
+        for _ in 0..n {
+            let (kg, kh, gg) = (g.gen(), g.gen(), g.gen()); let (a, rr) = (g.w(), g.w());
+            items.extend([add(&mul(&a, &kg), &mul(&rr, &kh)), mul(&a, &gg), kg, kh, gg]);
+            wit.push(rr); wit.push(a);
+            lin = add(&lin, &mul(&rr, &pw)); pw = mul(&pw, &two32);
+        }
+    }
+    let mut pubs = vec![mul(&sk, &dc), dc, add(&mul(&sk, &c0), &mul(&lin, &c1)), c0, c1]; pubs.extend(items);
+    // full statement for the truncated-response attack: one more chunk in encexp1 that nobody can open
+    let full: Vec<S> = { let mut f = pubs[..5 + 5 * n].to_vec(); for _ in 0..5 { f.push(g.rnd()); } f.extend_from_slice(&pubs[5 + 5 * n..]); f };
+    let mut offs = vec![0usize]; for i in 0..n { offs.push(36 + 64 * i); offs.push(68 + 64 * i); }
+    for i in 0..n { offs.push(40 + 64 * n + 64 * i); offs.push(72 + 64 * n + 64 * i); }
+    Fam { name: "enc_trans".into(), n, variant: g.var.name().into(), pubs, wit,
+        mk: mk_enc(n, n),
+        mkw: Box::new(move |w| EncTransSecret { dlog_secret: Rc::new(w[0]),
+            encexp1_secrets: (0..n).map(|i| ComEqSecret { r: prand(&w[1 + 2 * i]), a: val(&w[2 + 2 * i]) }).collect(),
+            encexp2_secrets: (0..n).map(|i| ComEqSecret { r: prand(&w[1 + 2 * n + 2 * i]), a: val(&w[2 + 2 * n + 2 * i]) }).collect() }),
+        offs, expect_panic: false, attack: Some((full, mk_enc(n + 1, n))) }
 }
 
 fn cases(seed: u64, budget: u64) {
@@ -314,6 +388,7 @@ fn cases(seed: u64, budget: u64) {
                 run(fam_comlin(&mut g, n), &mut r, s);
                 run(fam_vcomeq(&mut g, n), &mut r, s);
                 run(fam_rep(&mut g, n), &mut r, s);
+                if n <= 2 || round % 2 == 0 { run(fam_enctrans(&mut g, if n == 17 { 4 } else { n }), &mut r, s); }
             }
         }
     }
@@ -325,6 +400,7 @@ fn cases(seed: u64, budget: u64) {
         let v = if i % 4 == 1 { su(0) } else { C::generate_scalar(&mut csprng) };
         let vt = C::generate_scalar(&mut csprng);
         let pv = if i % 4 == 2 { v } else if i % 4 == 3 { su(0) } else { C::generate_scalar(&mut csprng) };
+        let mut rng_copy = csprng.clone();
         let res = guarded(|| prove_com_ineq(&key, &val(&v), &prand(&vt), pv, &mut csprng));
         let c = key.hide(&val(&v), &prand(&vt));
         let equal = v == pv;
@@ -349,6 +425,26 @@ fn cases(seed: u64, budget: u64) {
                   let rej = match from_bytes::<concordium_base::sigma_protocols::com_ineq::Response<C>, _>(&mut std::io::Cursor::new(&pb2)) { Ok(p2) => !verify_com_ineq(&key, &c, pv, &p2), Err(_) => true };
                   pert.push(json!(["aux_com", rej])); }
                 println!("{}", json!({"p":"com_ineq","made":true,"equal":equal,"ver":ver,"pert":pert}));
+                // model tie: the inner ComMult proof in the exponent.  The auxiliary commitment's randomness is the
+                // first RNG draw of prove_com_ineq; it is re-derived from a copy of the RNG and CHECKED against the proof.
+                let r2 = PedRand::<C>::generate(&mut rng_copy);
+                let neg = |x: &S| { let mut y = *x; y.negate(); y };
+                let diff = add(&v, &neg(&pv));
+                if let Some(dinv) = diff.inverse() {
+                    let l = pb.len();
+                    let aux_dlog = add(&mul(&dinv, &gg), &mul(&r2, &hh));
+                    if to_bytes(&pt(&aux_dlog)) == pb[l - 48..].to_vec() {
+                        let cdl = add(&mul(&v, &gg), &mul(&vt, &hh));
+                        let pubs = vec![add(&mul(&diff, &gg), &mul(&vt, &hh)), aux_dlog, gg, gg, hh];
+                        let wit = vec![diff, dinv, vt, *r2, su(0)];
+                        println!("{}", json!({"p":"com_ineq/com_mult","n":1,"variant":"random","k":"legacy","ctx":{"dom":hex(b"InequalityProof"),"ops":[]},
+                            "ineq":[sh(&gg), sh(&hh), sh(&cdl), sh(&pv)], "pub": pubs.iter().map(sh).collect::<Vec<_>>(), "wit": wit.iter().map(sh).collect::<Vec<_>>(),
+                            "chal": hex(&pb[..32]), "resp": hex(&pb[32..192]), "offs":[0,32,64,96,128], "made":true, "ver":ver, "post":null, "vpost":null,
+                            "cm":null, "pert":[], "expect_panic":false}));
+                    } else {
+                        println!("{}", json!({"p":"com_ineq/com_mult","made":"skipped","why":"auxiliary randomness not recovered (RNG draw order changed)"}));
+                    }
+                }
             }
         }
     }
